@@ -33,6 +33,11 @@ def main():
     f.add_argument('--tier', default='quick')
     f.add_argument('--seed', type=int, default=0)
     f.add_argument('--n', type=int, default=10)
+    e = sub.add_parser('envworlds')      # internal: a sample of worlds in this interpreter's process environment
+    e.add_argument('prop')
+    e.add_argument('--tier', default='quick')
+    e.add_argument('--seed', type=int, default=0)
+    e.add_argument('--n', type=int, default=300)
     args = ap.parse_args()
 
     if args.cmd in ('check', 'replay'):
@@ -44,6 +49,12 @@ def main():
     if args.cmd == 'fp':
         res = runner.fingerprints_for(args.prop.upper(), args.tier, args.seed, args.n)
         print('FP ' + json.dumps(res))
+        from verif.sim import core
+        core.drop_process_scratch()
+        return 0
+    if args.cmd == 'envworlds':
+        res = runner.env_worlds(args.prop.upper(), args.tier, args.seed, args.n)
+        print('ENVRES ' + json.dumps(res, default=str))
         from verif.sim import core
         core.drop_process_scratch()
         return 0
